@@ -220,6 +220,30 @@ theorem public_shares_are_vkshares {P : Type} (r2 : List (MsgKey × P))
     subst this
     exact value_unique r2 hnd _ vk' vk hm' hm
 
+/-- **An incomplete round-1 message leaves a gap, never a substitute.** If the shares a node received
+contain no entry of source `src` for validator `v` (a peer whose message to this node lacks that
+validator's share), `getRound2Inputs` hands validator `v`'s participant NO share under source `src`
+— for every iteration order, whatever else was received: the share of another validator or another
+source is never taken instead. (kryptology's `Round2` then has a broadcast of `src` without its
+share and cannot complete; a node that went on without `src`'s contribution would compute a key the
+other nodes do not hold — stream `frost`, op `fcer`.) -/
+theorem incomplete_message_leaves_gap {S : Type} (p2pR1 : List (MsgKey × S)) (v src : Nat)
+    (hmiss : ∀ e ∈ p2pR1, ¬ (e.1.valIdx = v ∧ e.1.sourceID = src)) :
+    r2Share p2pR1 v src = none ∧ src ∉ r2Sources p2pR1 v := by
+  constructor
+  · cases h : r2Share p2pR1 v src with
+    | none => rfl
+    | some s =>
+      obtain ⟨k, hm, hp⟩ := lastMatch_some_mem _ _ _ h
+      simp only [Bool.and_eq_true, beq_iff_eq] at hp
+      exact absurd ⟨hp.1, hp.2⟩ (hmiss _ hm)
+  · intro hin
+    unfold r2Sources at hin
+    rw [List.mem_eraseDups] at hin
+    simp only [List.mem_map, List.mem_filter, beq_iff_eq] at hin
+    obtain ⟨e, ⟨hm, hv⟩, hs⟩ := hin
+    exact hmiss e hm ⟨hv, hs⟩
+
 /-- **`round1` files every outgoing message under this node's id and the right validator**:
 broadcasts with target 0, shares with the receiving node as target. -/
 theorem round1_keys_spec (self : Nat) (vals targets : List Nat) (k : MsgKey) :
